@@ -2,6 +2,7 @@ package props
 
 import (
 	"fmt"
+	"sync/atomic"
 	"testing"
 	"time"
 
@@ -75,8 +76,14 @@ func runC14(t *testing.T, seed uint64, m *Mask) *Report {
 		if redial {
 			acfg.RedialTimes, acfg.RedialInterval = 2, 2*time.Millisecond
 		}
-		A := e.NewPeer("A", acfg)
-		B := e.NewPeer("B", erpc.PeerConfig{CountTime: countTime})
+		// a dial hook may name the session (PreSession.SetID), which lists it in the peer's index while Dial is
+		// still setting it up
+		nameInHook := redial && e.Gen.Chance(0.5)
+		A := e.NewPeer("A", acfg, &c07Namer{on: func() bool { return nameInHook }})
+		// the server may refuse the very first connection in its accept hook: the dialled session loses its
+		// connection at the moment Dial returns, and its reader starts the redial at once
+		refuseFirst := redial && e.Gen.Chance(0.4)
+		B := e.NewPeer("B", erpc.PeerConfig{CountTime: countTime}, &c14Refuser{on: func() bool { r := refuseFirst; refuseFirst = false; return r }})
 		rtA, rtB := e.RegisterStd(A), e.RegisterStd(B)
 		type sp struct{ a, b erpc.Session }
 		var ss []sp
@@ -99,9 +106,11 @@ func runC14(t *testing.T, seed uint64, m *Mask) *Report {
 					e.Fail("infra-dial-failed", "dial: %v", st)
 					return
 				}
-				want := sa.LocalAddr().String()
-				e.Until(func() bool { s := e.FindSession(B, want); return s != nil && s.Health() })
-				ss = append(ss, sp{sa, e.FindSession(B, want)})
+				e.Until(func() bool {
+					s := e.FindSession(B, sa.LocalAddr().String())
+					return s != nil && s.Health() && sa.Health()
+				})
+				ss = append(ss, sp{sa, e.FindSession(B, sa.LocalAddr().String())})
 				continue
 			}
 			sa, sb, _, _ := e.ServePair(A, B, pf, pf)
@@ -206,7 +215,7 @@ func runC14(t *testing.T, seed uint64, m *Mask) *Report {
 					defer running.Dec()
 					for j := 0; j < 3; j++ {
 						body := fmt.Sprintf("plain-http-%d-%d", i, j)
-						req := fmt.Sprintf("POST %s HTTP/1.1\r\nContent-Type: application/json; charset=utf-8; n=%x-%d-%d\r\nContent-Length: %d\r\nX-Seq: %d\r\nX-Mtype: 1\r\n\r\n%s", rtB.Blank, seed, i, j, len(body), j+1, body)
+						req := fmt.Sprintf("POST %s HTTP/1.1\r\nContent-Type: application/json; charset=utf-8; n=%08x\r\nContent-Length: %d\r\nX-Seq: %d\r\nX-Mtype: 1\r\n\r\n%s", rtB.Blank, c14Spelling.Add(1), len(body), j+1, body)
 						ra.Write([]byte(req))
 						simrt.YieldN(1 + e.Gen.Intn(4))
 					}
@@ -250,6 +259,11 @@ func runC14(t *testing.T, seed uint64, m *Mask) *Report {
 	return fin
 }
 
+// c14Spelling numbers the Content-Type spellings of the plain HTTP clients across the whole process (fixed
+// width, so that every run sends the same number of bytes): whatever a protocol remembers about spellings it has
+// seen, the warm-up run or an earlier run of the same seed has not seen these.
+var c14Spelling atomic.Uint32
+
 func indexOf(s, sub string) int {
 	for i := 0; i+len(sub) <= len(s); i++ {
 		if s[i:i+len(sub)] == sub {
@@ -275,4 +289,15 @@ func rtEcho(rt world.Routes, op *world.Op) string {
 		return rt.EchoMx
 	}
 	return rt.Echo
+}
+
+// c14Refuser is a PostAccept plugin that refuses a connection when told to.
+type c14Refuser struct{ on func() bool }
+
+func (c *c14Refuser) Name() string { return "c14-refuser" }
+func (c *c14Refuser) PostAccept(erpc.PreSession) *erpc.Status {
+	if c.on() {
+		return erpc.NewStatus(1499, "refused by the accept hook", "")
+	}
+	return nil
 }
